@@ -61,6 +61,28 @@ VIEWS = [dataclass(eq=False)(type(f"V{i}", (View,), {})) for i in range(NTAGS)]
 TAG_OF = {c: i for i, c in enumerate(VIEWS)}
 
 
+@dataclass(eq=False)
+class Box:
+    """a collection the rule variable is taken from: x = flatten(box.parts)  ("boxes")"""
+    parts: list
+
+
+_SYM_VIEWS = []
+
+
+def sym_views():
+    """view classes that are Symbols, for a selected variable declared with let(<Symbol type>, domain=None) ("selected_let")"""
+    if not _SYM_VIEWS:
+        from dataclasses import make_dataclass
+        from krrood.entity_query_language.predicate import Symbol
+        base = make_dataclass("SView", [("p", P, None)], bases=(Symbol,), eq=False)
+        subs = [make_dataclass(f"SV{i}", [], bases=(base,), eq=False) for i in range(NTAGS)]
+        _SYM_VIEWS.extend([base, subs])
+        for i, c0 in enumerate(subs):
+            TAG_OF[c0] = i
+    return _SYM_VIEWS
+
+
 def exc_code(e: BaseException) -> int:
     return sum(ord(c) for c in type(e).__name__) % 9973
 
@@ -77,8 +99,28 @@ def run_case(case) -> list:
     keep = []
     index = {id(p): i for i, p in enumerate(xs)}
     try:
-        x = let(P, xs, name="x")
-        views = inference(View)()
+        view_classes = VIEWS
+        if case.get("boxes"):
+            # the rule variable is the element of a flattened collection
+            from krrood.entity_query_language.entity import flatten
+            bx, k0 = [], 0
+            for nparts in case["boxes"]:
+                bx.append(Box(xs[k0:k0 + nparts]))
+                k0 += nparts
+            keep.append(bx)
+            box = let(Box, bx, name="box")
+            x = flatten(box.parts)
+        else:
+            x = let(P, xs, name="x")
+        if case.get("selected_let"):
+            # the selected variable is declared like in the repository's rule tests: let(<Symbol type>, domain=None)
+            from krrood.entity_query_language.symbol_graph import SymbolGraph
+            SymbolGraph().clear()
+            sbase, view_classes = sym_views()
+            views = let(sbase, domain=None)
+        else:
+            views = inference(View)()
+        const_tags = case.get("const_tags") or []
 
         def conds_of(rule):
             # "form": the same condition written differently (the Coq terms keep the atom)
@@ -105,6 +147,11 @@ def run_case(case) -> list:
             # the base rule also joins over a variable with an EMPTY domain that no other branch mentions
             d = let(D, [], name="d")
             head = head + [d.v == x.a]
+        elif case.get("empty_join") == 3:
+            # the base rule joins over a variable with a NON-empty domain that matches nothing: false rows exist, so the
+            # alternatives of the chain must fire too
+            d = let(D, [D(-99)], name="d")
+            head = head + [d.v == x.a]
         elif case.get("empty_join") == 2:
             # the base rule starts with an exists(...) that holds for no element (Exists drops its false rows)
             from krrood.entity_query_language.entity import exists
@@ -120,7 +167,10 @@ def run_case(case) -> list:
 
         def body(rule):
             if rule["tag"] is not None:
-                Add(views, inference(VIEWS[rule["tag"]])(p=x))
+                if rule["tag"] in const_tags:
+                    Add(views, inference(view_classes[rule["tag"]])())      # a conclusion that mentions no variable
+                else:
+                    Add(views, inference(view_classes[rule["tag"]])(p=x))
             for kind, sub in rule["body"]:
                 with getattr(R, KINDS[kind])(*conds_of(sub)):
                     body(sub)
@@ -139,7 +189,7 @@ def run_case(case) -> list:
                 if stage == 0:
                     for _ in range(case.get("mid_evals", 0)):      # the query is evaluated before the second block is written
                         keep.extend(q.evaluate())
-        for _ in range(case.get("evals", 1) - 1):      # experiments only: evaluate the same query object several times
+        for _ in range(case.get("evals", 1) - 1):      # the finished query is evaluated completely before the observed evaluation
             keep.extend(q.evaluate())
         if case.get("abandon") is not None:            # experiments only (C03): an iterator advanced k steps, then abandoned
             it = iter(q.evaluate())
@@ -195,7 +245,21 @@ def snippet(case) -> str:
     for t in sorted(set(tags)):
         lines.append(f"@dataclass(eq=False)\nclass V{t}(View): ...")
     lines.append("xs = [" + ", ".join(f"{'Q' if (case.get('forms') and b == 1) else 'P'}({a}, {b})" for a, b in case["world"]) + "]")
-    lines.append("x = let(P, xs, name='x'); views = inference(View)()")
+    if case.get("boxes"):
+        lines.append("from krrood.entity_query_language.entity import flatten")
+        lines.append("@dataclass(eq=False)\nclass Box:\n    parts: list")
+        cuts, k0 = [], 0
+        for nparts in case["boxes"]:
+            cuts.append(f"Box(xs[{k0}:{k0 + nparts}])")
+            k0 += nparts
+        lines.append("box = let(Box, [" + ", ".join(cuts) + "], name='box'); x = flatten(box.parts)")
+    else:
+        lines.append("x = let(P, xs, name='x')")
+    if case.get("selected_let"):
+        lines.append("# (View and the V<i> classes must derive from krrood.entity_query_language.predicate.Symbol for this line)")
+        lines.append("views = let(View, domain=None)")
+    else:
+        lines.append("views = inference(View)()")
 
     def conds(r):
         if r.get("form") == 1:
@@ -208,6 +272,10 @@ def snippet(case) -> str:
     if case.get("empty_join") == 1:
         lines.append("@dataclass(eq=False)\nclass D:\n    v: int")
         lines.append("d = let(D, [], name='d')        # the base rule joins over a variable with an empty domain")
+        lines.append(f"q = an(entity(views, {conds(case['prog'])}, d.v == x.a))")
+    elif case.get("empty_join") == 3:
+        lines.append("@dataclass(eq=False)\nclass D:\n    v: int")
+        lines.append("d = let(D, [D(-99)], name='d')  # the base rule joins over a variable that matches nothing")
         lines.append(f"q = an(entity(views, {conds(case['prog'])}, d.v == x.a))")
     elif case.get("empty_join") == 2:
         lines.append("from krrood.entity_query_language.entity import exists")
@@ -225,7 +293,10 @@ def snippet(case) -> str:
         pad = "    " * ind
         wrote = False
         if r["tag"] is not None:
-            lines.append(f"{pad}Add(views, inference(V{r['tag']})(p=x))")
+            if r["tag"] in (case.get("const_tags") or []):
+                lines.append(f"{pad}Add(views, inference(V{r['tag']})())        # mentions no variable of the binding")
+            else:
+                lines.append(f"{pad}Add(views, inference(V{r['tag']})(p=x))")
             wrote = True
         for k, s in r["body"]:
             lines.append(f"{pad}with {KINDS[k]}({conds(s)}):")
@@ -247,6 +318,8 @@ def snippet(case) -> str:
             if stage == 0:
                 for _ in range(case.get("mid_evals", 0)):
                     lines.append("list(q.evaluate())        # the query is evaluated before the second block is written")
+    for _ in range(case.get("evals", 1) - 1):
+        lines.append("list(q.evaluate())        # evaluated completely before the observed evaluation")
     lines.append("print(sorted((type(v).__name__, xs.index(v.p)) for v in q.evaluate()))")
     return "\n".join(lines)
 
@@ -693,6 +766,10 @@ def gen_case_empty_join(rng, good):
             break
     c.pop("stages", None)
     c.pop("mid_evals", None)
+    c.pop("evals", None)
+    if rng.chance(0.3):
+        c["empty_join"] = 3      # non-empty domain that matches nothing: the program is kept as written (alternatives fire)
+        return c
 
     def chain(r):
         r["body"] = [["N" if k == "A" else k, sub] for k, sub in r["body"]]
@@ -715,6 +792,7 @@ def gen_case_quant(rng, good):
         c = gen_case(rng, good, 5)
         c.pop("stages", None)
         c.pop("mid_evals", None)
+        c.pop("evals", None)
         if c.get("forms") or not c["prog"]["body"] or len(c["world"]) < 2:
             continue
         kinds = [k for k, _ in c["prog"]["body"]]
@@ -723,6 +801,78 @@ def gen_case_quant(rng, good):
             c["prog"]["body"][i][0] = "A"
         c["quant"] = rng.randint(0, 3)
         return c
+
+
+def gen_case_round7(rng, good):
+    """one of: a constant conclusion (mentions no variable of the binding); the rule variable is the element of a flattened
+    collection; the selected variable is declared with let(<Symbol type>, domain=None)"""
+    while True:
+        c = gen_case(rng, good, 5)
+        if c.get("forms") or len(c["world"]) < 2:
+            continue
+        for k0 in ("stages", "mid_evals", "evals"):
+            c.pop(k0, None)
+        break
+    tags = []
+
+    def walk(r):
+        if r["tag"] is not None:
+            tags.append(r["tag"])
+        for _, sub in r["body"]:
+            walk(sub)
+
+    walk(c["prog"])
+    kind = rng.choice(["const", "boxes", "selected_let"])
+    if kind == "const" and tags:
+        c["const_tags"] = sorted(set(rng.sample(tags, min(len(tags), rng.randint(1, 2)))))
+    elif kind == "boxes":
+        n, sizes = len(c["world"]), []
+        while n > 0:
+            k0 = rng.randint(1, min(3, n))
+            sizes.append(k0)
+            n -= k0
+        c["boxes"] = sizes
+    else:
+        c["selected_let"] = True
+    return c
+
+
+def project_const(case, rows):
+    """instances of constant conclusions carry no element: compare them by tag only"""
+    ct = set(case.get("const_tags") or [])
+    return [[t, -1 if t in ct else i] for t, i in rows]
+
+
+def round7_defect_behaviour(case, impl, spec) -> bool:
+    """narrow recorded behaviour of the open findings C08-m (constant conclusion), C08-n (flattened element), C08-o
+    (let-declared selected variable); each applies only when the tree has a root selector (the program has a branch)"""
+    if impl[0] != 0 or not case["prog"]["body"]:
+        return False
+    got = sorted(impl[1])
+    if case.get("const_tags"):
+        ct = set(case["const_tags"])
+        want = sorted(project_const(case, spec))
+        if impl[2] or [r for r in got if r[0] not in ct] != [r for r in want if r[0] not in ct]:
+            return False
+        # a constant conclusion is inferred once per (selector, truth, conclusion set): at least once, never more often than the Spec
+        return all(1 <= sum(1 for r in got if r[0] == t) <= sum(1 for r in want if r[0] == t)
+                   for t in ct if any(r[0] == t for r in want)) and not any(r[0] in ct and r not in want for r in got)
+    if case.get("boxes"):
+        want = sorted(list(r) for r in spec)
+        if impl[2] or any(r not in want for r in got) or len(set(map(tuple, got))) != len(got):
+            return False
+        box_of, k0 = {}, 0
+        for bi, nparts in enumerate(case["boxes"]):
+            for i in range(k0, k0 + nparts):
+                box_of[i] = bi
+            k0 += nparts
+        # per (conclusion, box) at least one element keeps the conclusion; elements are only LOST, nothing is added
+        keys = lambda rows: {(t, box_of[i]) for t, i in rows}
+        return keys(got) == keys(want)
+    if case.get("selected_let"):
+        # every result beyond the Spec's is an instance OBJECT that was already handed out
+        return sorted(impl[1]) == sorted(list(r) for r in spec) and bool(impl[2])
+    return False
 
 
 def all_forests(n):
@@ -816,6 +966,9 @@ CLASS_TEXT = {
     "K_next": "programs with next_rule outside the ordered fragments Fx: inside C08_rules_next_all (set of instances, next_rule anywhere); C08-d/e/g repaired by /repo 35fa150, 6dfdafd: no open finding; compared with model and Spec (as multisets)",
     "K_leafflag": "a branch whose whole condition is a single predicate (HasType) never sets `_is_false_`; an Alternative chained to it reads the stale flag (C08-k); narrow match: the same program with that condition written as a comparator agrees with the Spec",
     "K_quant_base_alt": "the base rule has a quantified conjunct (exists) that is false for some elements: it yields no row for them, so no alternative of the top-level chain is tried (C08-l, cause C01-j); python-level class rule: case carries `quant`; tolerated only when the output equals the Spec where the conjunct holds and the Spec of [quant_defect_prog] where it does not",
+    "K_const_concl": "a conclusion that mentions no variable of the binding is inferred once per root selector instead of once per binding (C08-m); python-level class rule: case carries `const_tags` and the program has a branch; tolerated only when every other instance agrees with the Spec and each constant conclusion occurs at least once and at most as often as in the Spec",
+    "K_flatten_key": "the rule variable is the element of a flattened collection: the coverage key of the root selector ignores the element, so per collection only one element keeps a conclusion (C08-n); class rule: case carries `boxes` and the program has a branch; tolerated only when the output is a sub-multiset of the Spec with the same (conclusion, collection) pairs",
+    "K_selected_let": "the selected variable is declared with let(<Symbol type>, domain=None): a true row without a new conclusion hands out already inferred instances again (C08-o); class rule: case carries `selected_let`; tolerated only when the first-time instances are exactly the Spec's and every extra result is an instance object already handed out",
     "U_unsettled": "next_rule written in the level of a later sibling refinement: reading not settled by the property text; compared with the model only",
 }
 
@@ -1037,7 +1190,7 @@ def run(tier: str, seed: int, replay=None) -> int:
             cases.append(replay["case"])
             origin.append("replay")
     else:
-        stale_open = {f.witness for f in findings if f.kind == "open" and f.cls in ("K_stale_parent", "K_leafflag", "K_quant_base_alt")}
+        stale_open = {f.witness for f in findings if f.kind == "open" and f.cls in ("K_stale_parent", "K_leafflag", "K_quant_base_alt", "K_const_concl", "K_flatten_key", "K_selected_let")}
         for p in sorted(corpus_dir.glob("*.json")):
             if p.name.startswith("_") or f"corpus/{PROP}/{p.name}" in stale_open:
                 continue          # (the witness of the open finding C08-j is replayed with its own narrow match below)
@@ -1067,6 +1220,9 @@ def run(tier: str, seed: int, replay=None) -> int:
             c1 = gen_case(rng, good, 6)
             if c1.get("stages") and "K_stale_parent" not in open_classes and rng5.chance(0.5):
                 c1["mid_evals"] = 1      # the query is evaluated between the two with-blocks (C08-j, once repaired)
+                if rng5.chance(0.6):
+                    c1["evals"] = 2      # ... and twice after the second block (a root selector added by the extension
+                                         # must be forgotten per evaluation like the others: seeded C08-L)
             if rng5.chance(0.2):
                 add_forms(rng5, c1)      # predicates / not_ as whole branch conditions (C08-k)
             cases.append(c1)
@@ -1074,6 +1230,10 @@ def run(tier: str, seed: int, replay=None) -> int:
         rng6 = core.Rng(seed).fork(32)
         for _ in range(150 if tier == "quick" else 2000):
             cases.append(gen_case_empty_join(rng6, good))
+            origin.append("random")
+        rng8 = core.Rng(seed).fork(34)
+        for _ in range(150 if tier == "quick" else 1800):
+            cases.append(gen_case_round7(rng8, good))
             origin.append("random")
         rng7 = core.Rng(seed).fork(33)
         for _ in range(120 if tier == "quick" else 1500):
@@ -1128,7 +1288,22 @@ def run(tier: str, seed: int, replay=None) -> int:
                 count_kinds(sub)
 
         count_kinds(c["prog"])
+        r7 = "const_tags" if c.get("const_tags") else "boxes" if c.get("boxes") else "selected_let" if c.get("selected_let") else None
+        if r7:
+            dist["round7:" + r7] = dist.get("round7:" + r7, 0) + 1
+            s_raw = s
+            s = project_const(c, s)
+            if m is not None and m[0] == 0 and c.get("const_tags"):
+                ct7 = set(c["const_tags"])
+                m = [0, [[r[0], -1 if set(r[0]) <= ct7 else r[1]] for r in m[1]]] + list(m[2:])
         s_ok = spec_matches(impl, s)
+        if r7 and model_ok and not s_ok and case_class(fr) != "U_unsettled":
+            cls7 = {"const_tags": "K_const_concl", "boxes": "K_flatten_key", "selected_let": "K_selected_let"}[r7]
+            if cls7 in open_classes and round7_defect_behaviour(c, impl, s_raw):
+                inst[cls7] = inst.get(cls7, 0) + 1
+            else:
+                bad.append((c, org, impl, m, s, fr, f"{r7}: neither the Spec nor the recorded behaviour of the open finding of class {cls7}"))
+            continue
         dist["other_condition_forms"] = dist.get("other_condition_forms", 0) + (1 if c.get("forms") else 0)
         dist["base_rule_without_rows"] = dist.get("base_rule_without_rows", 0) + (1 if c.get("empty_join") else 0)
         dist["quantified_conjunct_in_base_rule"] = dist.get("quantified_conjunct_in_base_rule", 0) + (1 if c.get("quant") is not None else 0)
@@ -1283,7 +1458,17 @@ def run(tier: str, seed: int, replay=None) -> int:
         except Exception as e:  # noqa
             rep.oblige(f"finding:{f.fid}", False, f"cannot replay {f.witness}: {e}")
             continue
-        fails = not spec_matches(impl, s)
+        fails = not spec_matches(impl, project_const(d["case"], s))
+        if f.kind == "open" and f.cls in ("K_const_concl", "K_flatten_key", "K_selected_let"):
+            fails7 = not spec_matches(impl, project_const(d["case"], s))
+            if fails7 and impl == d.get("impl", impl) and round7_defect_behaviour(d["case"], impl, s):
+                rep.known(f)
+            elif fails7:
+                rep.violation({"kind": "counterexample", "case": d["case"], "impl": impl, "spec": sorted(s),
+                               "why": f"witness of {f.fid} fails differently from what was recorded", "python": snippet(d["case"])})
+            else:
+                rep.note(f"known finding {f.fid} no longer reproduces on its witness")
+            continue
         if f.kind == "open" and f.cls == "K_quant_base_alt":
             (sd,) = core.coq_values(PROP, HEADER_SPEC, [f"spec_sx {rule_term(quant_defect_prog(d['case']))} {world_term(d['case']['world'])}"],
                                     chunk=240, tag=f"valsq{os.getpid()}")
